@@ -161,4 +161,35 @@ C10_Holds(c, in, o) ==
     [] c = "nontest-build-mockall"  -> o.built => o.nt_mockall = (C10_MockallOn(in) /\ C10_Exporting(in))
     [] c = "test-build-mockall"     -> o.built => o.t_mockall = C10_MockallOn(in)
 C10_Fail(in, o) == { c \in C10_Conj : ~C10_Holds(c, in, o) }
+
+(***************************************************************************)
+(* C15  Misuse yields a compile-time diagnostic; the macro never panics.   *)
+(*  in : [fault: "" or the documented misuse injected into an otherwise    *)
+(*        valid invocation, optname: the offending option for option       *)
+(*        faults]                                                          *)
+(*  o  : [panicked (hook record / "custom attribute panicked"),            *)
+(*        rejected: the macro emitted an error instead of an expansion,    *)
+(*        parses: the emitted tokens parse as Rust items,                  *)
+(*        diagnosed: rustc reported the macro's error at the invocation,   *)
+(*        phrases: which key phrases the message contains]                 *)
+(*  Messages are recognised by stable key phrases, not by exact text.      *)
+(***************************************************************************)
+C15_Phrases(fault, optname) ==
+  CASE fault = "missing-deps"       -> {"dependency", "no_deps"}
+    [] fault = "self-receiver"      -> {"self receiver"}
+    [] fault = "concrete-in-module" -> {"concrete dependenc"}
+    [] fault = "concrete-in-impl"   -> {"concrete dependenc"}
+    [] fault = "unknown-option"     -> {"option", optname}
+    [] fault = "unsupported-option" -> {"nsupported option"}
+    [] fault = "custom-delegate-without-target-trait" -> {"delegat"}
+    [] fault = "target-trait-without-delegate-by"     -> {"delegate_by"}
+    [] OTHER -> {}
+C15_Conj == {"no-panic", "tokens-parse", "diagnosed", "rejected-when-misused", "specific-message"}
+C15_Holds(c, in, o) ==
+  CASE c = "no-panic"      -> ~o.panicked
+    [] c = "tokens-parse"  -> ~o.panicked => o.parses
+    [] c = "diagnosed"     -> o.rejected => o.diagnosed
+    [] c = "rejected-when-misused" -> in.fault # "" => (o.rejected \/ o.panicked)
+    [] c = "specific-message" -> in.fault # "" /\ o.rejected => C15_Phrases(in.fault, in.optname) \subseteq o.phrases
+C15_Fail(in, o) == { c \in C15_Conj : ~C15_Holds(c, in, o) }
 =============================================================================
